@@ -20,14 +20,16 @@ Section Final.
   Hypothesis NE : x_cells x <> [].
 
   (** for a finite limit: the cells of CellUnionFromIntersection(indexCovering, FastCovering(search
-      cap)) are valid cell ids, not absurdly many, and the entries the clean-up loop makes of them
-      represent every index cell holding an edge within the limit (H-CAPARITH, C05). That those
-      entries are sound — an index cell always under its own id — is proved (C08_Cleanup). *)
+      cap)) are valid cell ids in increasing order, not absurdly many, and COVER THE SEARCH CAP:
+      every index cell holding an edge within the limit meets one of them (H-CAPARITH, C05).
+      That the clean-up loop then hands over sound entries which represent every such index cell
+      is proved (C08_Cleanup: [cleanup_entries_good], [cleanup_represents]). *)
   Definition CoverFinite (t : target D) (edist : eid -> D) : Prop := forall lim,
     d_eqb ops lim (d_inf ops) = false ->
     (forall id, In id (t_initial_cells t lim) -> valid id) /\
+    StronglySorted Z.lt (t_initial_cells t lim) /\
     (forall c, In c (x_cells x) -> (exists e, In e (snd c) /\ d_less ops (edist e) lim = true) ->
-       exists ce, In ce (init_entries D ops t x false lim) /\ rep ce c) /\
+       exists idI, In idI (t_initial_cells t lim) /\ meets idI c) /\
     Z.of_nat (length (t_initial_cells t lim)) < 2 ^ 17.
 
   Lemma finite_entries_good t lim : d_eqb ops lim (d_inf ops) = false ->
@@ -59,8 +61,11 @@ Section Final.
       destruct (init_covering_sound x WF NE) as (G & R & _). split.
       + intros ce H. exact (G ce H).
       + intros c Hc _. exact (R c Hc).
-    - destruct (CF lim E) as (A & B & _). split; [|exact B].
-      intros ce H. exact (finite_entries_good t lim E A ce H).
+    - destruct (CF lim E) as (A & So & B & _). split; [intros ce H; exact (finite_entries_good t lim E A ce H)|].
+      intros c Hc He. destruct (B c Hc He) as (idI & Hi & M).
+      destruct (init_covering_sound x WF NE) as (G & _ & _).
+      unfold init_entries. rewrite E.
+      destruct (cleanup_represents x WF _ G _ A So O None ltac:(discriminate) idI c Hi Hc M) as [H|(m & H & _)]; [exact H|discriminate].
   Qed.
 
   Lemma init_ok_wf t edist : CoverFinite t edist -> forall lim,
@@ -70,7 +75,7 @@ Section Final.
     intros CF lim. destruct (d_eqb ops lim (d_inf ops)) eqn:E.
     - unfold init_entries. rewrite E. destruct (init_covering_sound x WF NE) as (G & _ & L).
       split; [exact G|]. change (2 ^ 17) with 131072. lia.
-    - destruct (CF lim E) as (A & _ & L). split; [exact (finite_entries_good t lim E A)|].
+    - destruct (CF lim E) as (A & _ & _ & L). split; [exact (finite_entries_good t lim E A)|].
       pose proof (finite_entries_length t lim E). lia.
   Qed.
 
